@@ -18,7 +18,7 @@ demo = ([f for f in demos if os.path.basename(f).startswith("demo")] or demos)[0
 scratch = tempfile.mkdtemp(prefix="hyseed-")
 out = {"dir": os.path.basename(d)}
 def run_demo(root):
-    env = dict(os.environ, PYTHONPATH=root); env.pop("PYTHONDONTWRITEBYTECODE", None)
+    env = dict(os.environ, PYTHONPATH=root, HY_ROOT=root); env.pop("PYTHONDONTWRITEBYTECODE", None)
     env["PYTHONPYCACHEPREFIX"] = os.path.join(scratch, "pc-" + str(abs(hash(root))))
     cmd = ["/venv/bin/python", demo] if demo.endswith(".py") else ["/venv/bin/python", "-m", "hy", demo]
     try:
@@ -52,8 +52,9 @@ try:
     if a.keep and confirmed:
         dst = os.path.join(V, "seeded", a.keep)
         os.makedirs(dst, exist_ok=True)
-        shutil.copy(os.path.join(d, "patch.diff"), dst)
-        shutil.copy(demo, dst)
+        if os.path.abspath(d) != os.path.abspath(dst):
+            shutil.copy(os.path.join(d, "patch.diff"), dst)
+            shutil.copy(demo, dst)
         meta = {}
         try:
             meta = json.load(open(os.path.join(d, "meta.json")))
